@@ -15,6 +15,8 @@ import OcVerif.Driver.Trap
 import OcVerif.Driver.Sched
 import OcVerif.Driver.Pool
 import OcVerif.Driver.Join
+import OcVerif.Driver.Rt
+import OcVerif.Driver.Once
 /-!
 `ocmodel`: reads history lines `<comp> <id> : <body> => <implementation outputs>` on stdin,
 runs the Lean model on `<body>`, compares with the implementation's outputs and evaluates the
@@ -43,6 +45,8 @@ def dispatch (comp : String) : Option (String → String → Verdict) :=
   | "sched" => some Driver.Sched.drive
   | "pool" => some Driver.Pool.drive
   | "join" => some Driver.Join.drive
+  | "rt" => some Driver.Rt.drive
+  | "once" => some Driver.Once.drive
   | _ => none
 
 def handle (line : String) : String :=
